@@ -41,6 +41,19 @@ def prepare(run, need_harness=True, need_cli=False):
 
 # ------------------------------------------------------------------ L2 helper
 
+def corpus_l2(prop):
+    """minimised past failures and negation witnesses of this property: they run first"""
+    d = os.path.join(C.V, 'corpus', prop)
+    out = []
+    if os.path.isdir(d):
+        for f in sorted(os.listdir(d)):
+            if f.endswith('.json'):
+                j = json.load(open(os.path.join(d, f)))
+                if j.get('layer') == 'L2':
+                    out.append(l2.Scenario.from_dict(j['scenario']))
+    return out
+
+
 def l2_stream(run, scenarios, oracles, label, nontrivial=None, focus_gen=None):
     """Runs scenarios through model + implementation, evaluates oracles on the implementation's
     output, handles disagreements per DESIGN §2.6."""
@@ -218,3 +231,154 @@ def main(argv):
     run = C.Run(a.prop, tier, a.seed)
     REGISTRY[a.prop](run)
     return run.finish()
+
+
+# ------------------------------------------------------------------ C11
+
+def c11_lengths(cfg, thorough):
+    first, growth, maxc, small = cfg
+    s = {0, 1, 2, small - 1, small, small + 1, first - 1, first, first + 1, first + small - 1, first + small, first + small + 1}
+    for k in range(12, 23):
+        s |= {2 ** k - 1, 2 ** k, 2 ** k + 1}
+    tot, c = 0, first
+    while tot < 2 * maxc + first:
+        tot += c
+        s |= {tot - 1, tot, tot + 1, tot + small - 1, tot + small, tot + small + 1}
+        c = min(c * growth, maxc)
+    if thorough:
+        s |= set(range(0, 2 * first + 2))
+    return sorted(x for x in s if x >= 0)
+
+
+def listed_size(sc, path):
+    if path == '':
+        d = sc.src_reply[1] if sc.src_reply[0] == 'R' else None
+        return int(d.split(':')[2]) if d and d.startswith('F:') else None
+    for e in sc.events:
+        if e[0] == 'E' and e[1] == 'S' and e[2] == path and e[3].startswith('F:'):
+            return int(e[3].split(':')[2])
+    return None
+
+
+def oracle_relay(r):
+    """success => for every file fetched, the bytes the source sent total the listed size and were all
+    forwarded, the time stamp only on the last chunk"""
+    ir, sc = r['impl_r'], r['sc']
+    if ir.get('res') != 'ok':
+        return None
+    scripts = dict(sc.files)
+    dest = ir.get('dest', [])
+    for c in ir.get('src', []):
+        if cmd_name(c) != 'GetFileContent':
+            continue
+        p = bytes.fromhex(cmd_args(c)[0]).decode()
+        size = listed_size(sc, p)
+        chunks, total, ended = [], 0, False
+        for d, more in scripts.get(p, []):
+            chunks.append(d); total += len(d)
+            if not more:
+                ended = True; break
+        if not ended or total != size:
+            return f'success although source file {p!r} delivered {total} bytes (terminated={ended}) for a listed size of {size}'
+        sent = [cmd_args(x) for x in dest if cmd_name(x) == 'CreateOrUpdateFile' and bytes.fromhex(cmd_args(x)[0]).decode() == p]
+        if b''.join(bytes.fromhex(a[1]) for a in sent) != b''.join(chunks):
+            return f'destination did not receive the bytes of {p!r}'
+        if sent and (sent[-1][2] == '-' or any(a[2] != '-' for a in sent[:-1])):
+            return f'time stamp of {p!r} not exactly on the last chunk'
+    return None
+
+
+@prop('C11')
+def check_C11(run):
+    from . import l3
+    import shutil
+    if not prepare(run):
+        return
+    C.proofs_step(run, 'C11')
+    consts = run.extract_status.get('constants', {})
+    cfg = tuple(consts.get(k) for k in ('firstChunk', 'chunkGrowth', 'maxChunk', 'smallBuf'))
+    thorough = run.tier == 'thorough'
+    run.cov['rule'] = ('L3: real GetFileContent on real files of boundary lengths (chunk length/flag sequence = model, CRC of every chunk = the file slice); '
+                       'real CreateOrUpdateFile sequences onto absent/shorter/longer destination files (bytes and mtime read back); '
+                       'L2: chunk relay with growing/shrinking sources; non-trivial = multi-chunk file or a length change; distinct by length / request line')
+    if None in cfg:
+        run.violation(dict(kind='extraction-broken', what='chunk constants of handle_get_file_contents', status=consts), no_input=True)
+        return
+    lengths = c11_lengths(cfg, thorough)
+    if not thorough:
+        small = [x for x in lengths if x <= 70000]
+        big = [x for x in lengths if x > 70000]
+        lengths = small + run.rng.sample(big, min(len(big), 24))
+    model = C.run_model([f'chunks {n}' for n in lengths])
+    d = l3.scratch()
+    try:
+        os.makedirs(os.path.join(d, 'src')); os.makedirs(os.path.join(d, 'dst'))
+        lines, datas = [], []
+        for i, n in enumerate(lengths):
+            data = l3.content(i + run.seed * 7919, n)
+            l3.make_tree(os.path.join(d, 'src'), [(f'f{i}', 'F', data, 1_600_000_000_123_456_789 + i)])
+            datas.append(data)
+            lines.append(l3.l3_line([['SR', C.X(os.path.join(d, 'src'))], ['GFC', C.X(f'f{i}')]], 60000))
+        impl = C.run_harness(lines, timeout=1800)
+        wlines, wmeta = [], []
+        for i, (n, m_ans, (i_ans, _)) in enumerate(zip(lengths, model, impl)):
+            resp, status = l3.parse_resp(i_ans) if i_ans.startswith('resp=') else ([], i_ans)
+            got = [x for x in resp if x.startswith('FileContent')]
+            lens = '[' + ';'.join(','.join([cmd_args(x)[0], cmd_args(x)[2]]) for x in got) + ']'
+            nt = len(got) > 1
+            run.case(('reader', n), nt, sample=dict(layer='L3', length=n, impl_chunks=lens) if nt else None)
+            run.count('reader-files'); run.cov['traces_validated_against_impl'] += 1
+            # oracle (independent of the model): concatenation = file, exactly the last flag is 0
+            off, ok_or = 0, True
+            for j, x in enumerate(got):
+                a = cmd_args(x); ln = int(a[0])
+                if a[1] != l3.crc(datas[i][off:off + ln]) or (a[2] == '0') != (j == len(got) - 1):
+                    ok_or = False
+                off += ln
+            if off != n or not got or status or len(got) != len(resp) - 1:
+                ok_or = False
+            if not ok_or:
+                run.violation(dict(kind='oracle-failed-on-implementation', oracle='chunks concatenate to the file; exactly the last has more_to_follow=false',
+                                   layer='L3', length=n, impl=i_ans[:2000], model=m_ans))
+            elif lens != m_ans:
+                run.violation(dict(kind='correspondence-broken', correspondence='L3/chunk-sequence', length=n, impl=lens, model=m_ans,
+                                   note='bytes are still delivered exactly; the chunking differs from the model'), no_input=True)
+            # writer: the model's chunking onto an absent / shorter / longer destination file
+            if i % (1 if thorough else 3) == 0 or n < 100:
+                pre = ['absent', 'shorter', 'longer'][len(wlines) % 3]
+                if pre != 'absent':
+                    pl = max(0, n - 5) if pre == 'shorter' else n + 4097
+                    l3.make_tree(os.path.join(d, 'dst'), [(f'f{i}', 'F', b'\xee' * pl, 1_000_000_000)])
+                chunks = [tuple(map(int, c.split(','))) for c in m_ans[1:-1].split(';')]
+                cmds, off = [['SR', C.X(os.path.join(d, 'dst'))]], 0
+                srcfile = os.path.join(d, 'src', f'f{i}').encode().hex()
+                mt = 1_600_000_000_123_456_789 + i
+                for ln, more in chunks:
+                    cmds.append(['CUF', C.X(f'f{i}'), f'f{srcfile}:{off}:{ln}', '-' if more else str(mt), str(more)])
+                    off += ln
+                wlines.append(l3.l3_line(cmds, 60000)); wmeta.append((i, n, pre, mt))
+        wres = C.run_harness(wlines, timeout=1800)
+        snap = l3.snapshot(os.path.join(d, 'dst'))
+        import hashlib
+        for (i, n, pre, mt), (ans, _) in zip(wmeta, wres):
+            run.case(('writer', n, pre), n > cfg[0], sample=dict(layer='L3', length=n, previous_dest=pre, impl=ans[:200]) if n > cfg[0] else None)
+            run.count(f'writer-{pre}'); run.cov['traces_validated_against_impl'] += 1
+            e = snap.get(f'f{i}'.encode())
+            want = ('F', n, hashlib.sha1(datas[i]).hexdigest(), mt)
+            if ans != 'resp=[RootDetails(D,0,47)]' or e != want:
+                run.violation(dict(kind='oracle-failed-on-implementation', oracle='destination bytes and mtime equal the source after the last chunk',
+                                   layer='L3', length=n, previous_dest=pre, impl=ans[:500], dest_entry=e, want=want))
+    finally:
+        shutil.rmtree(d, ignore_errors=True)
+    # L2 relay: sources that grow / shrink between listing and read
+    rng = run.rng
+    scs = []
+    for _ in range(600 if not thorough else 6000):
+        sc = l2.gen_scenario(rng, profile='folder', faults=False)
+        sc.beh, sc.answers, sc.dry, sc.filters = 'ooooo', '', False, []
+        sc.files = [(p, l2.gen_file_script(rng, sum(len(x) for x, _ in ch), rng.random() < 0.5)) for p, ch in sc.files]
+        scs.append(sc)
+    l2_stream(run, corpus_l2('C11') + scs, [('relay', oracle_relay)], 'chunk-relay',
+              nontrivial=lambda r: any(len(ch) > 1 for _, ch in r['sc'].files))
+    run.cov['trusted_base'] = C.GLOBAL_TRUST + ['read(2)/write(2) on the host file system; regular files give full reads (short-read schedules are covered by the theorem only)']
+    run.assumptions = ['chunk constants extracted from doer.rs on this run: first=%s growth=%s max=%s small=%s' % cfg]
